@@ -9,7 +9,7 @@ def simCfg : Cfg :=
     merge := .keepOldest,
     stopClears := true,
     agentsEarly := true,
-    destroyGuarded := false }
+    destroyGuarded := true }
 /-- `DynamicScenario._stop` stops its sub-scenarios before it reverts its own overrides -/
 def subsStoppedBeforeRevert : Bool := true
 /-- `Simulation._createObject` registers the object and enables its proxy before calling the simulator -/
